@@ -7,4 +7,9 @@ let () =
   register "strip_sourcepos" (fun a -> pr_opt hex_of_bytes (M.strip_sourcepos (arg a 0)));
   register "relex_identity" (fun a -> pr_bool (M.relex_identity (arg a 0)));
   register "dangerous_spec" (fun a -> pr_bool (M.dangerous_spec (arg a 0)));
-  register "dangerous_model" (fun a -> pr_bool (M.dangerous_url (arg a 0)))
+  register "dangerous_model" (fun a -> pr_bool (M.dangerous_url (arg a 0)));
+  (* treepred <tree tokens> -> ok <s2><s3><s4><s6><s6w><s7> : the shape clauses the HTML theorems assume *)
+  register "treepred" (fun a ->
+      let (t, _) = D_0tree.parse_tree a in
+      let b x = if x then "1" else "0" in
+      "ok " ^ b (M.s2 t) ^ b (M.s3 t) ^ b (M.s4 t) ^ b (M.s6 t) ^ b (M.s6w t) ^ b (M.s7 t))
